@@ -82,6 +82,20 @@ func NewStakeCtrler(config *cfg.Config, govHandler ctrlertypes.IGovHandler, logg
 	}
 
 	// set `lastValidators` of StakeCtrler
+	// Restore the validator set that the last block reported to the consensus engine:
+	// EndBlock selected it from the delegatees as committed by the block before.
+	if ver := delegateeLedger.Version(); ver > 1 {
+		if immuLedger, xerr := delegateeLedger.ImmutableLedgerAt(ver-1, 128); xerr == nil {
+			minPower := ctrlertypes.AmountToPower(govHandler.MinValidatorStake())
+			_ = immuLedger.IterateReadAllItems(func(d *Delegatee) xerrors.XError {
+				if d.SelfPower >= minPower {
+					ret.allDelegatees = append(ret.allDelegatees, d)
+				}
+				return nil
+			})
+			sort.Sort(PowerOrderDelegatees(ret.allDelegatees))
+		}
+	}
 	_ = ret.UpdateValidators(int(govHandler.MaxValidatorCnt()))
 
 	return ret, nil
